@@ -347,7 +347,7 @@ static inline int64_t local_pow(int b, int n)
 
 float32_t igris_atof32(const char *str, char **pend)
 {
-    if (!igris_isdigit(*str) && *str != '-')
+    if (!igris_isdigit(*str) && *str != '-' && *str != '+' && *str != '.')
     {
         if (pend)
             *pend = (char *)str;
@@ -355,7 +355,7 @@ float32_t igris_atof32(const char *str, char **pend)
     }
 
     uint8_t minus = *str == '-' ? 1 : 0;
-    if (minus)
+    if (minus || *str == '+')
         str++;
 
     char *end;
